@@ -1,4 +1,5 @@
 import Props.C07
+#print axioms Bycycle.C07_detector_args
 #print axioms Bycycle.C07_fraction
 #print axioms Bycycle.C07_fraction_inside
 #print axioms Bycycle.C07_fraction_range
